@@ -172,6 +172,19 @@ def check_node(rep, node, tier, idx):
                         outcome = "composition"
                 if outcome == "ok" and d[0] == "ok":
                     prev_enc, prev_exp = enc, exp
+            if node.kind == "array" and outcome == "ok" and isinstance(v, (list, tuple)) and len(v) >= 1 and isinstance(exp, list) and len(exp) == len(v) \
+                    and node.children and node.children[0].desc[0] != "bits" and not node.children[0].consumes_all and node._enc is None and node._dec is None:
+                # the element count given explicitly to encode and decode (whatever kind of length the array type has): still a round trip,
+                # and the decoder stops after that many elements
+                n = len(v)
+                r2 = _try(node.lib.encode, v, n)
+                st = TS.CountingIO((bytes(r2[1]) if r2[0] == "ok" else b"") + SENTINEL)
+                d3 = _try(node.lib.decode, st, n) if r2[0] == "ok" else None
+                calls += 2
+                if r2[0] != "ok" or d3[0] != "ok" or not node.same(d3[1], exp) or st.read() != SENTINEL:
+                    rep.violation(f"explicit-count/{node.cls}", f"{node.label}: decode(encode({v!r:.100}, {n}), {n}) = {d3!r:.100} (encode -> {r2!r:.80}), expected {exp!r:.100} and the stream left behind the last element",
+                                  {"type_index": idx, "tier": tier, "value_index": vi, "clause": "explicit-count"})
+                    outcome = "explicit-count"
             if node.kind == "struct" and getattr(node, "all_named", False) and isinstance(v, dict):
                 pos = _try(node.encode, [v[n] for n in node.names])
                 calls += 1
